@@ -38,11 +38,14 @@ func (c *isoCase) MarshalJSON() ([]byte, error) {
 }
 
 type isoReply struct {
-	Failures   []Failure `json:"failures"`
-	Nontrivial bool      `json:"nontrivial"`
-	Skipped    bool      `json:"skipped"`
-	Outcome    string    `json:"outcome"`
-	HasOutcome bool      `json:"has_outcome"`
+	Failures    []Failure        `json:"failures"`
+	Nontrivial  bool             `json:"nontrivial"`
+	Skipped     bool             `json:"skipped"`
+	Outcome     string           `json:"outcome"`
+	HasOutcome  bool             `json:"has_outcome"`
+	States      int64            `json:"states"`
+	Transitions int64            `json:"transitions"`
+	Extra       map[string]int64 `json:"extra"`
 }
 
 func (c *isoCase) Exec(t *T) {
@@ -80,6 +83,11 @@ func (c *isoCase) Exec(t *T) {
 	t.nontrivial = rep.Nontrivial
 	t.skipped = rep.Skipped
 	t.outcome, t.hasOutcome = rep.Outcome, rep.HasOutcome
+	t.r.AddStates(rep.States)
+	t.r.AddTransitions(rep.Transitions)
+	for k, v := range rep.Extra {
+		t.r.AddExtra(k, v)
+	}
 }
 
 func head(s string, n int) string {
@@ -115,7 +123,7 @@ func RunIsolated() int {
 	r.Group("isolated", req.Type, "")
 	t := &T{r: r, typ: req.Type, c: c}
 	r.exec(c, t)
-	rep := isoReply{Failures: t.failures, Nontrivial: t.nontrivial, Skipped: t.skipped, Outcome: t.outcome, HasOutcome: t.hasOutcome}
+	rep := isoReply{Failures: t.failures, Nontrivial: t.nontrivial, Skipped: t.skipped, Outcome: t.outcome, HasOutcome: t.hasOutcome, States: r.res.States, Transitions: r.res.Transitions, Extra: r.res.Extra}
 	out, _ := json.Marshal(rep)
 	fmt.Printf("ISO-RESULT %s\n", out)
 	return 0
